@@ -17,6 +17,7 @@ RULE = ('twin logs: after the same short pre-history (limit opened, 0..4 offers 
         'cuts: random compositions including empty buffers (first, middle, last), a single buffer, cuts exactly on fragment boundaries, '
         'one-byte buffers; geometry and hand-over points as in C04 (term 1 KiB / 4 KiB / 64 KiB, MTU 64..term/8, last terms, wrapped term ids); '
         'kind xapp: ExclusiveTermAppender::append_unfragmented_message_bulk against append_unfragmented_message on logs handed over at (n0, off0). '
+        'kind sapp (oracle only): the shared TermAppender called directly, vectored against contiguous, unfragmented and fragmented, with the active term id equal to / different from the term id of the tail (both flavours must refuse alike and write nothing). '
         'Observation: result, changed words of every partition, tails, count, position of both logs (+ A before the offer). '
         'A case is non-trivial when the message is cut into at least 2 buffers; distinct = distinct (state, cut) pairs')
 ASSUMPTIONS = [
@@ -118,6 +119,22 @@ def gen_xapp(rng, i):
     return {'kind': 'xapp', 'geom': [tlen, mtu, init, n0, off0], 'k': rng.randrange(0, 200), 'parts': parts}
 
 
+def gen_sapp(rng, big):
+    """the shared appender called directly, unfragmented and fragmented, with the caller's term id equal to / different from the
+    term id of the tail its fetch-add lands on (a publisher delayed between sampling the tail and the fetch-add)"""
+    out = []
+    for (tlen, mtu) in (base.GEOMS[:7] if big else [base.GEOMS[0], base.GEOMS[2], base.GEOMS[4]]):
+        mpl = mtu - 32
+        for delta in (0, 0, 1, -1, 3, -3):
+            for total in (0, 1, mpl, mpl + 1, 2 * mpl, 2 * mpl + 5, rng.randrange(0, 4 * mpl)):
+                init = rng.choice([0, -1, base.MAXI, rng.randrange(base.MINI, base.MAXI + 1)])
+                n0 = rng.choice([0, 1, 2, 7, rng.randrange(0, 2**31)])
+                off0 = max(0, rng.choice([0, 32, tlen - 64, tlen - mtu, 32 * rng.randrange(0, tlen // 32)]))
+                parts = base.split_parts(rng, total, max(1, mpl)) if total else []
+                out.append({'kind': 'sapp', 'geom': [tlen, mtu, init, n0, off0], 'delta': delta, 'k': rng.randrange(0, 200), 'parts': parts})
+    return out
+
+
 def generate(rng, tier):
     big = tier == 'thorough'
     n = 6000 if big else 270
@@ -135,7 +152,39 @@ def generate(rng, tier):
                 cases.append(gen_exact_fit(rng, tlen, mtu, d, (j + rep + d) % 3))
     for i in range(n):
         cases.append(gen_twin(rng, i) if i % 6 != 5 else gen_xapp(rng, i))
-    return cases
+    return cases + gen_edges(rng, big) + gen_sapp(rng, big)
+
+
+def gen_edges(rng, big):
+    """round 3: inputs the random generator (almost) never produces - an empty list of buffers; refusals at the very end of the
+    position space, where the status depends on the length of the WHOLE message; over-long messages offered while refused"""
+    out = []
+    geoms = base.GEOMS[:7] if big else [base.GEOMS[0], base.GEOMS[2], base.GEOMS[4]]
+    for (tlen, mtu) in geoms:
+        mpl = mtu - 32
+        mm = min(tlen // 8, 16 * 1024 * 1024)
+        # no buffers at all: an empty message - accepted, refused at the limit, on a closed publication, at the end of a term
+        for (n0, off0, pre) in ((0, 0, [['l', 100000]]), (3, tlen - 32, [['l', 10 * tlen]]), (3, tlen, [['l', 10 * tlen]]),
+                                (0, 64, [['l', 64], ['n', 1]]), (0, 64, [['l', 100000], ['x']]), (2**31 - 1, tlen, [['l', 2**62]])):
+            out.append({'kind': 'twin', 'pub': 's', 'geom': [tlen, mtu, rng.choice([0, -1, base.MAXI]), n0, off0], 'pre': pre,
+                        'k': rng.randrange(0, 200), 'parts': []})
+        for off0 in (0, tlen - 32, tlen):
+            out.append({'kind': 'xapp', 'geom': [tlen, mtu, 0, rng.choice([0, 5, 2**31 - 1]), off0], 'k': rng.randrange(0, 200), 'parts': []})
+        # refused in the very last term, a few bytes before the end of the position space: MaxPositionExceeded iff position + the
+        # length of the whole message reaches term_length * 2^31
+        for off0 in (tlen - 64, tlen - 32):
+            pos = (2**31 - 1) * tlen + off0
+            left = tlen - off0
+            for total in (left - 1, left, left + 8):
+                for parts in ([1, total - 1], [0, total], [total - 1, 1]):
+                    pre = [['l', pos - rng.choice([0, 32])]] + ([['n', 1]] if rng.random() < 0.5 else [])
+                    out.append({'kind': 'twin', 'pub': 's', 'geom': [tlen, mtu, rng.choice([0, 1, base.MAXI]), 2**31 - 1, off0], 'pre': pre,
+                                'k': rng.randrange(0, 200), 'parts': parts})
+        # over-long message while refused / closed: the refusal comes first
+        for pre in ([['l', 0]], [['l', 100000], ['x']], [['n', 1]]):
+            out.append({'kind': 'twin', 'pub': 's', 'geom': [tlen, mtu, 0, 0, 0], 'pre': pre, 'k': rng.randrange(0, 200),
+                        'parts': [mm, 1] if rng.random() < 0.5 else [1, mm + 7]})
+    return out
 
 
 def impl_line(c):
@@ -144,6 +193,8 @@ def impl_line(c):
     if c['kind'] == 'twin':
         pre = ' ; '.join(' '.join(str(x) for x in o) for o in c['pre'])
         return 'twin %s %s | %s | %s' % (c['pub'], g, pre, msg)
+    if c['kind'] == 'sapp':
+        return 'sapp %s %d | %s' % (g, c['delta'], msg)
     return 'xapp %s | %s' % (g, msg)
 
 
@@ -151,6 +202,8 @@ def model_expr(c, mode):
     g = ' '.join(z(x) for x in c['geom'])
     if c['kind'] == 'twin':
         return 'twin_case %s %s [%s] %s %s' % (base.mode_c(mode), g, '; '.join(base.op_coq(o) for o in c['pre']), z(c['k']), base.zl(c['parts']))
+    if c['kind'] == 'sapp':
+        return None         # judged by the oracle alone (equality of the two flavours + the refusal on a foreign term id)
     return 'xapp_case %s %s %s %s' % (base.mode_c(mode), g, z(c['k']), base.zl(c['parts']))
 
 
@@ -168,6 +221,8 @@ def oracle_expr(c, mode, obs):
         return 'holds_twin (%s) %s %s %s %s' % (geom, z(total), to_coq(before), to_coq(items[3]), to_coq(items[4]))
     if len(items) != 3:
         return 'false'
+    if c['kind'] == 'sapp':
+        return 'holds_sapp (%s) %s %s %s %s' % (geom, z(c['delta']), z(total), to_coq(('tuple', items[0:2])), to_coq(items[2]))
     return 'holds_xapp (%s) %s %s %s' % (geom, z(total), to_coq(('tuple', items[0:2])), to_coq(items[2]))
 
 
